@@ -422,7 +422,7 @@ def execute(sc):
     elif k == 'repeat':
       # the same cohort in two consecutive rounds (state threaded): a 256-coordinate random leaf makes a chance
       # coincidence of two independent quantizations impossible in practice (< 1e-40)
-      probes.inc('repeat_cohort_round', 'many_clients_round')
+      probes.inc('repeat_cohort_round')
       v = rs.uniform(-1, 1, size=(256,)).astype(np.float32)
       cohort = [(b'a', {'l0': v}, 1.0)]
       g1, state = run_round(state, cohort, label + ' first')
